@@ -3,6 +3,8 @@ package main
 // govc check -prop Cxx -tier quick|thorough : the registered check of one property.
 
 import (
+	"context"
+	"os/exec"
 	"bufio"
 	"encoding/json"
 	"flag"
@@ -402,6 +404,23 @@ func writeReplay(path, prop, full string, ob *Obligation, j *job) {
 		"solver_output": j.res.Output,
 		"smt_file":      j.path,
 		"replay":        "no failing input was constructed; re-run the solver on smt_file to reproduce the undischarged obligation",
+	}
+	if j.res.Status == "sat" {
+		// the solver's counterexample to the verification condition (values of the symbolic inputs and heaps)
+		if src, err := os.ReadFile(j.path); err == nil {
+			mp := strings.TrimSuffix(path, ".json") + ".model.smt2"
+			if os.WriteFile(mp, append(src, []byte("(get-model)\n")...), 0o644) == nil {
+				ctx, cancel := context.WithTimeout(context.Background(), 10*time.Second)
+				out, _ := exec.CommandContext(ctx, "z3-new", "-T:8", mp).CombinedOutput()
+				cancel()
+				txt := string(out)
+				if len(txt) > 30000 {
+					txt = txt[:30000] + "\n... (truncated)"
+				}
+				m["solver_model"] = txt
+				m["replay"] = "the solver returned a counterexample to the verification condition (solver_model); it was not replayed against the compiled code (DESIGN.md 11.6)"
+			}
+		}
 	}
 	b, _ := json.MarshalIndent(m, "", " ")
 	os.WriteFile(path, b, 0o644)
